@@ -25,10 +25,11 @@ type twinsJSON struct {
 	Seed       int64             `json:"seed"`
 	Scenarios  []json.RawMessage `json:"scenarios"`
 
+	mut      sync.Mutex // the source is shared by the workers of `twins run`
 	scenario int
 }
 
-func (t twinsJSON) Settings() Settings {
+func (t *twinsJSON) Settings() Settings {
 	return Settings{
 		NumNodes:   t.NumNodes,
 		NumTwins:   t.NumTwins,
@@ -41,13 +42,18 @@ func (t twinsJSON) Settings() Settings {
 }
 
 func (t *twinsJSON) NextScenario() (Scenario, error) {
-	var s Scenario
-	err := json.Unmarshal(t.Scenarios[t.scenario], &s)
+	t.mut.Lock()
+	raw := t.Scenarios[t.scenario]
 	t.scenario++
+	t.mut.Unlock()
+	var s Scenario
+	err := json.Unmarshal(raw, &s)
 	return s, err
 }
 
 func (t *twinsJSON) Remaining() int64 {
+	t.mut.Lock()
+	defer t.mut.Unlock()
 	return int64(len(t.Scenarios) - t.scenario)
 }
 
